@@ -563,11 +563,23 @@ func (f *File) ReadAt(p []byte, off int64) (n int, err error) {
 		return 0, nil
 	}
 
+	// `ReadAt` must not affect the cursor, so remember where it is and restore it after the read
+	prev, err := f.Seek(0, io.SeekCurrent)
+	if err != nil {
+		return -1, err
+	}
+
 	if _, err := f.Seek(off, io.SeekStart); err != nil {
 		return -1, err
 	}
 
-	return f.Read(p)
+	n, err = f.Read(p)
+
+	if _, serr := f.Seek(prev, io.SeekStart); serr != nil && err == nil {
+		return n, serr
+	}
+
+	return n, err
 }
 
 // Read/write operations
